@@ -83,6 +83,13 @@ func vServerSession(tok, payload []byte, key [4]byte) []byte {
 	if err != nil || len(hs2.Extensions) != 1 {
 		return append(obs, "upgrade2-error"...)
 	}
+	// a third handshake whose subprotocol is chosen by the selector all sessions share
+	u3 := ws.Upgrader{Protocol: func(p []byte) bool { return vSharedSelect(string(p)) }}
+	hconn3 := &vHalf{in: []byte("GET /x HTTP/1.1\r\nHost: h\r\nUpgrade: websocket\r\nConnection: Upgrade\r\nSec-WebSocket-Version: 13\r\nSec-WebSocket-Key: dGhlIHNhbXBsZSBub25jZQ==\r\nSec-WebSocket-Protocol: zz, pgg\r\n\r\n")}
+	hs3, err := u3.Upgrade(hconn3)
+	if err != nil || hs3.Protocol != "pgg" {
+		return vSessProblem(obs, "upgrade3-error")
+	}
 	// frames from the client: a ping, then a fragmented text message
 	// (a 125-byte ping: its pong is built in a pooled buffer — smaller ones are not pooled)
 	big := append(bytes.Repeat([]byte{'x'}, 124), payload[0])
@@ -168,6 +175,18 @@ var vSessProblems int
 func vSessProblem(obs []byte, what string) []byte {
 	vSessProblems++
 	return append(obs, what...)
+}
+
+// vSharedSelect: a subprotocol selector built once (ws.SelectFromSlice over 20 names) and used by
+// every server session through its Upgrader — configuration shared between connections.
+var vSharedSelect func(string) bool
+
+func vNewSharedConfig() {
+	var names []string
+	for i := 0; i < 20; i++ {
+		names = append(names, string([]byte{'p', byte('a' + i), byte('a' + i)}))
+	}
+	vSharedSelect = ws.SelectFromSlice(names)
 }
 
 var vSharedDialer = ws.Dialer{Protocols: []string{"chat"}, Extensions: []httphead.Option{httphead.NewOption("permessage-deflate", map[string]string{"client_max_window_bits": ""})}}
